@@ -1385,6 +1385,10 @@ func (nd *KVNode) applyEntries(np *nodeProgress, applyEvent *applyInfo) (bool, b
 		np.appliedi = evnt.Index
 		np.appliedt = evnt.Term
 		if evnt.Index == nd.rn.lastIndex {
+			// the replayed writes must be in the engine before the node reports ready
+			if batch != nil {
+				batch.CommitBatch()
+			}
 			nd.rn.Infof("replay finished at index: %v\n", evnt.Index)
 			nd.rn.MarkReplayFinished()
 		}
